@@ -95,6 +95,17 @@ def gen_case(rng, tier):
                 d['items'] = [it for it in d['items'] if it[0] != k] + [[k, rng.choice([M([]), L([])])]]
                 d['items'][-1][1]['del'] = True
         d = _place(rng, d, i, p_prio, p_del)
+        if i > 0 and rng.random() < 0.12 and out:
+            # !clear aimed at a container that carries an explicit !del / !merge of its own: an empty container of the same kind stays
+            prev = out[-1]
+            tops = [(k, n) for k, n in prev['items'] if n['t'] in ('map', 'seq') and n['items'] and not (fpath and k == fpath[0])]
+            if tops:
+                k, n = rng.choice(tops)
+                n['del'] = rng.choice([True, True, False])
+                if n.get('prio') is not None:
+                    n['mdsyn'] = 'hex'
+                d = copy.deepcopy(d)
+                d['items'] = [it for it in d['items'] if it[0] != k] + [[k, SP('clear')]]
         if i > 0 and rng.random() < 0.15:
             # an explicitly deleting scalar that merely is falsy: it has a value, the key stays
             tops = [k for k, _ in docs[i - 1]['items'] if not (fpath and k == fpath[0])]
